@@ -14,9 +14,13 @@
      - within one view, every bit set in a certificate under construction belongs to a
        validator whose recorded latest view is >= that view, no bit position is used by two
        certificates of the view, every certificate has a non-empty |C|-bit bitmap;
-     - a TimeoutQC under construction for view v carries the view (genesis, epoch, v). *)
+     - a TimeoutQC under construction for view v carries the view (genesis, epoch, v);
+     - every certificate under construction is stored under its own vote / view and has been
+       assembled correctly so far (QCProofs.cqc_inv, TqcAssembly.tqc_inv) -- not needed for the
+       bounds, carried along for C05 / C10 (last section of this file). *)
 From Coq Require Import ZArith List.
-From EC Require Import Lib.Outcome Lib.Obs Model.Msgs Model.Replica Model.ReplicaRun Proofs.ReplicaCaches.
+From EC Require Import Lib.Outcome Lib.ListW Lib.Obs Model.Msgs Model.Replica Model.ReplicaRun
+  Proofs.QCProofs Proofs.TqcAssembly Proofs.ReplicaCaches.
 Import ListNotations.
 Open Scope Z_scope.
 
@@ -109,8 +113,7 @@ Theorem C16_timeout_add_cannot_fail : forall cfg s key t i0, cache_inv cfg s ->
   timeout_verify (cg cfg) (ce cfg) (cC cfg) t = Ok tt ->
   let t0 := t0_of (r_timeout_qcs s) (tview t) in
   tqc_add (cg cfg) (ce cfg) (cC cfg) t0 {| skey := key; smsg := t; ssig := (key, TTimeout t) |}
-  = Ok {| tqview := tqview t0; tqmap := tqmap_set (tqmap t0) t (length (cC cfg)) i0;
-          tqagg := tqagg t0 ++ [(key, TTimeout t)] |}.
+  = Ok (tupd cfg key t i0 t0).
 Proof. exact timeout_add_cannot_fail. Qed.
 Print Assumptions C16_timeout_add_cannot_fail.
 
@@ -119,6 +122,63 @@ Theorem C16_retain_keeps_current : forall (A : Type) (qcs : list (Z * A)) views 
   zmap_get (retain_views (zmap_set qcs v x) (zmap_set views key v)) v = Some x.
 Proof. intros A. exact (@retain_keeps_current A). Qed.
 Print Assumptions C16_retain_keeps_current.
+
+(* ---------- for C05 / C10: the certificates under construction and the ones handed on ---------- *)
+
+(* every certificate in commit_qcs_cache: assembled correctly so far, stored under its vote, for
+   this chain and epoch and for the view of its bucket *)
+Theorem C16_cache_inv_commit_qc : forall cfg s v b c q, cache_inv cfg s ->
+  zmap_get (r_commit_qcs s) v = Some b -> cmap_get b c = Some q ->
+  cqc_inv (cC cfg) q /\ qmsg q = c /\ view_ok (cg cfg) (ce cfg) (cview c) /\ vnum (cview c) = v.
+Proof. exact cache_inv_commit_qc. Qed.
+Print Assumptions C16_cache_inv_commit_qc.
+
+Theorem C16_cache_inv_timeout_qc : forall cfg s v t, cache_inv cfg s ->
+  zmap_get (r_timeout_qcs s) v = Some t ->
+  tqc_inv (cg cfg) (ce cfg) (cC cfg) t /\ vnum (tqview t) = v /\ view_ok (cg cfg) (ce cfg) (tqview t).
+Proof. exact cache_inv_timeout_qc. Qed.
+Print Assumptions C16_cache_inv_timeout_qc.
+
+(* once its own checks have passed, on_commit is [on_commit_accept]: add the vote to the
+   certificate found or created ([cupd]), update the caches, and if the weight reaches the quorum
+   hand exactly that certificate to process_commit_qc ... *)
+Theorem C16_on_commit_eq : forall cfg s key c i0, cache_inv cfg s ->
+  cindex (cC cfg) key = Some i0 -> (vnum (cview c) <? r_view s) = false ->
+  fresh (r_commit_views s) key (vnum (cview c)) -> commit_verify (cg cfg) (ce cfg) c = Ok tt ->
+  on_commit cfg s key true c = on_commit_accept cfg s key c i0.
+Proof. exact on_commit_eq. Qed.
+Print Assumptions C16_on_commit_eq.
+
+(* ... and that certificate verifies (on_commit_qc_verifies) *)
+Theorem C16_on_commit_qc_verifies : forall cfg s key c i0, cache_inv cfg s ->
+  cindex (cC cfg) key = Some i0 ->
+  fresh (r_commit_views s) key (vnum (cview c)) -> commit_verify (cg cfg) (ce cfg) c = Ok tt ->
+  let q := cupd key c i0 (q0_of (cC cfg) (bucket_of (r_commit_qcs s) (vnum (cview c))) c) in
+  quorum (cC cfg) <= weight (cweights (cC cfg)) (qsigners q) ->
+  qmsg q = c /\ cqc_inv (cC cfg) q /\ cqc_verify (cg cfg) (ce cfg) (cC cfg) q = Ok tt.
+Proof. exact on_commit_qc_verifies. Qed.
+Print Assumptions C16_on_commit_qc_verifies.
+
+(* the same for on_timeout: TimeoutQC::weight is the weight of the union of the entries' signer
+   sets (they are disjoint), and when it reaches the quorum the TimeoutQC handed to
+   process_timeout_qc verifies (on_timeout_qc_verifies) *)
+Theorem C16_on_timeout_eq : forall cfg s key t i0, cache_inv cfg s ->
+  cindex (cC cfg) key = Some i0 -> (vnum (tview t) <? r_view s) = false ->
+  fresh (r_timeout_views s) key (vnum (tview t)) ->
+  timeout_verify (cg cfg) (ce cfg) (cC cfg) t = Ok tt ->
+  on_timeout cfg s key true t = on_timeout_accept cfg s key t i0.
+Proof. exact on_timeout_eq. Qed.
+Print Assumptions C16_on_timeout_eq.
+
+Theorem C16_on_timeout_qc_verifies : forall cfg s key t i0, cache_inv cfg s ->
+  cindex (cC cfg) key = Some i0 -> fresh (r_timeout_views s) key (vnum (tview t)) ->
+  timeout_verify (cg cfg) (ce cfg) (cC cfg) t = Ok tt ->
+  let t' := tupd cfg key t i0 (t0_of (r_timeout_qcs s) (tview t)) in
+  quorum (cC cfg) <= weight (cweights (cC cfg)) (union_from (bv_new (length (cC cfg))) (tqmap t')) ->
+  tqc_inv (cg cfg) (ce cfg) (cC cfg) t' /\ tqview t' = tview t /\
+  tqc_verify (cg cfg) (ce cfg) (cC cfg) t' = Ok tt.
+Proof. exact on_timeout_qc_verifies. Qed.
+Print Assumptions C16_on_timeout_qc_verifies.
 
 (* ---------- non-vacuity: a flood on a concrete committee ---------- *)
 Definition ex_cfg : config :=
